@@ -15,5 +15,6 @@
 #![allow(dead_code, unused_variables, unused_imports, unused_mut)]
 pub mod core;
 pub mod fields;
+#[cfg(feature = "genair")]
 pub mod genair;
 pub mod oracle;
